@@ -6,6 +6,7 @@ import Mav.Model.EnumText
 import Mav.Model.EnumCheck
 import Mav.Spec.Events
 import Mav.Spec.Fanout
+import Mav.Spec.Close
 /- mavdrv: one operation per line on stdin, model (and spec) answer per line on stdout. -/
 open Mav Drv
 
@@ -276,6 +277,10 @@ def step (ds : DState) (line : String) : DState × String :=
           else "violation: observed [" ++ pre ++ " | " ++ post ++ "] expected " ++ "~".intercalate (evs oracle) ++ "~C(nil)"
         verdict false ++ "\t" ++ verdict true
       | _, _ => "bad-op")
+  | ["closecheck", _sc, obs, _note] =>
+    (ds, match Spec.Close.parseObs obs with
+      | some o => let v := if Spec.Close.closeLegal o then "ok" else "violation: " ++ obs; v ++ "\t" ++ v
+      | none => "bad-op")
   | ["fancheck", _k, plan, obs] =>
     (ds, match decPlan plan, decObs obs with
       | some p, some o => let v := if Spec.Fan.fanLegal p 9 o then "ok" else "violation"; v ++ "\t" ++ v
